@@ -207,25 +207,26 @@ func famUntyped() *family {
 			vdecl = append(vdecl, fmt.Sprintf("var v%d %s = %s", i, to.name, e))
 		}
 		accVar := goAcceptsDecls(vdecl, []string{"math"})
-		var b strings.Builder
-		id := "u_" + to.name
-		fmt.Fprintf(&b, "func %s() {\n", id)
+		// one unit per (target type, expression, form): a constant the Gno preprocessor rejects must not mask the
+		// other constants, and the failing unit is already (nearly) the minimal program.
 		n := 0
 		for i, e := range cand {
 			if acc[i] {
 				n++
-				fmt.Fprintf(&b, "\tprintln(%q, %s)\n", "untyped->"+to.name+" "+exprs[i], show(to, e))
+				id := fmt.Sprintf("u_%s_%dc", to.name, i)
+				decl := fmt.Sprintf("func %s() {\n\tprintln(%q, %s)\n}\n", id, "untyped->"+to.name+" "+exprs[i], show(to, e))
+				f.units = append(f.units, unit{key: "untyped -> " + to.name + ": " + e, decls: decl, fn: id})
 			}
 			if accVar[i] {
 				n++
 				// the same through a typed variable initialiser
-				fmt.Fprintf(&b, "\t{\n\t\tvar v %s = %s\n\t\tprintln(%q, %s)\n\t}\n", to.name, exprs[i], "var "+to.name+" = "+exprs[i], show(to, "v"))
+				id := fmt.Sprintf("u_%s_%dv", to.name, i)
+				decl := fmt.Sprintf("func %s() {\n\tvar v %s = %s\n\tprintln(%q, %s)\n}\n", id, to.name, exprs[i], "var "+to.name+" = "+exprs[i], show(to, "v"))
+				f.units = append(f.units, unit{key: "untyped -> " + to.name + ": var v " + to.name + " = " + exprs[i], decls: decl, fn: id})
 			}
 		}
-		b.WriteString("}\n")
 		r.OutcomeN("const.go_accepts", int64(n))
 		r.OutcomeN("const.go_rejects(not compared)", int64(len(cand)-n))
-		f.units = append(f.units, unit{key: "untyped -> " + to.name, decls: b.String(), fn: id})
 	}
 	_ = math.Pi
 	return f
